@@ -28,6 +28,7 @@ type inlCtx struct {
 	// set while a directly deferred helper is inlined into a deferred literal: recover() stays a direct call of the
 	// deferred function, so its meaning is kept
 	allowRecover bool
+	closures     map[*types.Var]ast.Stmt // local closures some call of which was spliced -> their binding
 }
 
 func (n *normalizer) rewriteFunc(pkg *packages.Package, file *ast.File, fd *ast.FuncDecl) bool {
@@ -41,6 +42,7 @@ func (n *normalizer) rewriteFunc(pkg *packages.Package, file *ast.File, fd *ast.
 	}
 	c.resultsN = []int{nres}
 	fd.Body.List = c.list(fd.Body.List)
+	c.closureCleanup()
 	return c.changed
 }
 
@@ -119,6 +121,17 @@ func (c *inlCtx) candidate(e ast.Expr) (*ast.CallExpr, *Func) {
 	}
 	callee := originFunc(calleeOf(c.info, call))
 	if callee == nil {
+		// a local closure: `v := func(…) {…}` bound once and only ever called
+		if f := c.localClosure(call); f != nil {
+			if sig := f.Sig(); sig == nil || (sig.Variadic() && !call.Ellipsis.IsValid()) {
+				return nil, nil
+			}
+			if why := hasUnsupported(f.Body); why != "" {
+				c.skip(call, f, "the closure uses "+why)
+				return nil, nil
+			}
+			return call, f
+		}
 		return nil, nil
 	}
 	f := c.n.newFns[callee]
@@ -127,9 +140,25 @@ func (c *inlCtx) candidate(e ast.Expr) (*ast.CallExpr, *Func) {
 	}
 	sig := f.Sig()
 	if sig.TypeParams().Len() > 0 {
-		return nil, nil
+		// a generic function: its text can be spliced only if its body never names a type parameter (the parameters
+		// themselves are substituted or bound with :=, which needs no type text)
+		mentions := false
+		ast.Inspect(f.Body, func(n ast.Node) bool {
+			if id, ok := n.(*ast.Ident); ok {
+				if tn, ok := f.Pkg.TypesInfo.Uses[id].(*types.TypeName); ok {
+					if _, isTP := tn.Type().(*types.TypeParam); isTP {
+						mentions = true
+					}
+				}
+			}
+			return !mentions
+		})
+		if mentions {
+			c.skip(call, f, "the helper is generic and names a type parameter in its body")
+			return nil, nil
+		}
 	}
-	if sig.RecvTypeParams().Len() > 0 {
+	if sig.RecvTypeParams().Len() > 0 && f.Decl != nil {
 		// a method of a generic type: its text can be spliced only if it never names a type parameter (the caller's
 		// receiver may name them differently)
 		mentions := false
@@ -286,6 +315,10 @@ func (c *inlCtx) exprRewrites(s ast.Stmt) {
 			}
 			return false
 		case *ast.CallExpr:
+			if r := c.applySelector(x); r != nil {
+				cur.Replace(r)
+				return false
+			}
 			switch cur.Parent().(type) {
 			case *ast.GoStmt, *ast.DeferStmt, *ast.ExprStmt:
 				return true
@@ -598,4 +631,399 @@ func (c *inlCtx) betaReduce(call *ast.CallExpr) ast.Expr {
 	c.changed = true
 	c.n.lg.Inlined = append(c.n.lg.Inlined, fmt.Sprintf("%s: function literal called where it is written, into %s (beta reduction)", c.n.w.Pos(call.Pos()), c.rootName))
 	return out
+}
+
+// localClosure: call.Fun names a local variable that is bound exactly once, to a function literal, in the declaration
+// being rewritten, and every other mention of which is the function position of a call. Such a closure is a local helper:
+// its calls are spliced like those of a new function (free variables are checked to mean the same at the call), and
+// the binding is removed once nothing mentions it (closureCleanup).
+func (c *inlCtx) localClosure(call *ast.CallExpr) *Func {
+	v, rhs, def := c.calledLocal(call)
+	if v == nil {
+		// a literal called where it is written: (func() R { … })()
+		if lit, ok := unparen(call.Fun).(*ast.FuncLit); ok {
+			switch c.n.w.parent[call].(type) {
+			case *ast.GoStmt, *ast.DeferStmt:
+				return nil // the literal is the goroutine / the deferred function itself
+			}
+			if _, isClone := c.n.back[lit]; !isClone {
+				if f := c.n.w.funcOf[lit]; f != nil && f.Body != nil {
+					return f
+				}
+			}
+		}
+		return nil
+	}
+	lit, ok := rhs.(*ast.FuncLit)
+	if !ok {
+		return nil
+	}
+	// not recursive, and not one of this round's clones
+	if _, isClone := c.n.back[lit]; isClone {
+		return nil
+	}
+	self := false
+	ast.Inspect(lit.Body, func(n ast.Node) bool {
+		if x, ok := n.(*ast.Ident); ok && c.info.Uses[x] == types.Object(v) {
+			self = true
+		}
+		return !self
+	})
+	if self || call.Pos() < lit.End() {
+		return nil
+	}
+	f := c.n.w.funcOf[lit]
+	if f == nil || f.Body == nil {
+		return nil
+	}
+	if c.closures == nil {
+		c.closures = map[*types.Var]ast.Stmt{}
+	}
+	c.closures[v] = def
+	return f
+}
+
+// calledLocal: call.Fun names a local variable that is bound exactly once (v := rhs) in the declaration being rewritten
+// and every other mention of which is the function position of a call.
+func (c *inlCtx) calledLocal(call *ast.CallExpr) (*types.Var, ast.Expr, ast.Stmt) {
+	id, ok := unparen(call.Fun).(*ast.Ident)
+	if !ok || c.root == nil {
+		return nil, nil, nil
+	}
+	v, ok := c.info.Uses[id].(*types.Var)
+	if !ok || v.IsField() || v.Parent() == c.pkg.Types.Scope() {
+		return nil, nil, nil
+	}
+	var rhs ast.Expr
+	var def ast.Stmt
+	okAll := true
+	var stack []ast.Node
+	ast.Inspect(c.root, func(n ast.Node) bool {
+		if n == nil {
+			stack = stack[:len(stack)-1]
+			return true
+		}
+		stack = append(stack, n)
+		switch x := n.(type) {
+		case *ast.AssignStmt:
+			for i, l := range x.Lhs {
+				lid, ok := l.(*ast.Ident)
+				if !ok {
+					continue
+				}
+				if c.info.Defs[lid] == types.Object(v) {
+					if len(x.Lhs) == len(x.Rhs) && len(x.Lhs) == 1 && rhs == nil {
+						rhs, def = x.Rhs[i], x
+						continue
+					}
+					okAll = false
+				} else if c.info.Uses[lid] == types.Object(v) {
+					okAll = false // assigned again
+				}
+			}
+		case *ast.ValueSpec:
+			for _, nm := range x.Names {
+				if c.info.Defs[nm] == types.Object(v) {
+					okAll = false // var f = …: keep it simple, := only
+				}
+			}
+		case *ast.Ident:
+			if c.info.Uses[x] == types.Object(v) {
+				if len(stack) < 2 {
+					okAll = false
+					break
+				}
+				parent := stack[len(stack)-2]
+				if pc, ok := parent.(*ast.CallExpr); !ok || pc.Fun != ast.Expr(x) {
+					if as, ok := parent.(*ast.AssignStmt); ok {
+						isLhs := false
+						for _, l := range as.Lhs {
+							if l == ast.Expr(x) {
+								isLhs = true
+							}
+						}
+						if isLhs {
+							break // counted above
+						}
+					}
+					okAll = false
+				}
+			}
+		}
+		return true
+	})
+	if !okAll || rhs == nil || def == nil {
+		return nil, nil, nil
+	}
+	return v, rhs, def
+}
+
+// applySelector: h(args) where h := G(x…) was bound once, G is a new function that does nothing but choose, by
+// switch/if over its parameters, which function value to return (a selector), and the x are stable. The call is
+// rewritten into a literal called where it is written whose body is G's with every `return F` turned into
+// `return F(args)`: the choice is made where the function is applied, which is what the code before the refactoring did.
+func (c *inlCtx) applySelector(call *ast.CallExpr) ast.Expr {
+	v, rhs, def := c.calledLocal(call)
+	if v == nil {
+		return nil
+	}
+	gcall, ok := unparen(rhs).(*ast.CallExpr)
+	if !ok {
+		return nil
+	}
+	if _, isClone := c.n.back[gcall]; isClone {
+		return nil
+	}
+	callee := originFunc(calleeOf(c.info, gcall))
+	if callee == nil {
+		return nil
+	}
+	g := c.n.newFns[callee]
+	if g == nil || g.Pkg != c.pkg || g.Body == nil || g.Decl == nil || g.Decl.Recv != nil || c.n.cyclic[callee] || callee == c.self {
+		return nil
+	}
+	gs := g.Sig()
+	if gs.TypeParams().Len() > 0 || gs.Variadic() || gs.Results().Len() != 1 || len(gcall.Args) != gs.Params().Len() {
+		return nil
+	}
+	hs, ok := gs.Results().At(0).Type().Underlying().(*types.Signature)
+	if !ok {
+		return nil
+	}
+	if !isSelectorBody(g) {
+		c.skip(call, g, "called through a local bound to its result, and it is not a pure selector of function values")
+		return nil
+	}
+	for _, a := range gcall.Args {
+		if !simpleExpr(c.info, a) {
+			return nil
+		}
+		stable := true
+		ast.Inspect(a, func(n ast.Node) bool {
+			if id, ok := n.(*ast.Ident); ok {
+				if _, isVar := c.info.Uses[id].(*types.Var); isVar && !c.stable(id) {
+					stable = false
+				}
+			}
+			return stable
+		})
+		if !stable {
+			c.skip(call, g, "the selector's argument can change between the selection and the call")
+			return nil
+		}
+	}
+	// the literal's result list
+	var results *ast.FieldList
+	if hs.Results().Len() > 0 {
+		results = &ast.FieldList{}
+		for i := 0; i < hs.Results().Len(); i++ {
+			te := typeExpr(hs.Results().At(i).Type(), c.pkg.Types, c.file, c.info)
+			if te == nil {
+				return nil
+			}
+			results.List = append(results.List, &ast.Field{Type: te})
+		}
+	}
+	body := cloneAST(g.Body, c.n.back).(*ast.BlockStmt)
+	subst := map[types.Object]ast.Expr{}
+	for i := 0; i < gs.Params().Len(); i++ {
+		subst[gs.Params().At(i)] = gcall.Args[i]
+	}
+	failed := false
+	rewriteIdents(body, func(e ast.Expr, isSel, isKey bool) ast.Expr {
+		id, ok := e.(*ast.Ident)
+		if !ok || isSel {
+			return e
+		}
+		o := c.useOf(id)
+		if o == nil {
+			return e
+		}
+		if arg, ok := subst[o]; ok {
+			cl := cloneAST(arg, c.n.back).(ast.Expr)
+			if _, isId := cl.(*ast.Ident); isId {
+				return cl
+			}
+			return &ast.ParenExpr{X: cl}
+		}
+		if isKey {
+			if fv, ok := o.(*types.Var); ok && fv.IsField() {
+				return e
+			}
+		}
+		if !c.resolvesSame(id.Name, o, call.Pos()) {
+			failed = true
+		}
+		return e
+	})
+	if failed {
+		c.skip(call, g, "a name of the selector means something else at the call")
+		return nil
+	}
+	// return F  ->  return F(args)   (or  F(args); return  when the selected functions return nothing)
+	var fix func(list []ast.Stmt) []ast.Stmt
+	fixStmt := func(st ast.Stmt) {}
+	fix = func(list []ast.Stmt) []ast.Stmt {
+		var out []ast.Stmt
+		for _, st := range list {
+			if r, ok := st.(*ast.ReturnStmt); ok && len(r.Results) == 1 {
+				var args []ast.Expr
+				for _, a := range call.Args {
+					args = append(args, cloneAST(a, c.n.back).(ast.Expr))
+				}
+				fn := r.Results[0]
+				switch fn.(type) {
+				case *ast.Ident, *ast.SelectorExpr, *ast.ParenExpr:
+				default:
+					fn = &ast.ParenExpr{X: fn}
+				}
+				app := &ast.CallExpr{Fun: fn, Args: args, Lparen: call.Lparen, Rparen: call.Rparen}
+				if call.Ellipsis.IsValid() {
+					app.Ellipsis = call.Rparen
+				}
+				if results != nil {
+					out = append(out, &ast.ReturnStmt{Return: r.Return, Results: []ast.Expr{app}})
+				} else {
+					out = append(out, &ast.ExprStmt{X: app}, &ast.ReturnStmt{Return: r.Return})
+				}
+				continue
+			}
+			fixStmt(st)
+			out = append(out, st)
+		}
+		return out
+	}
+	fixStmt = func(st ast.Stmt) {
+		switch x := st.(type) {
+		case *ast.BlockStmt:
+			x.List = fix(x.List)
+		case *ast.IfStmt:
+			x.Body.List = fix(x.Body.List)
+			if x.Else != nil {
+				fixStmt(x.Else)
+			}
+		case *ast.SwitchStmt:
+			for _, cl := range x.Body.List {
+				cc := cl.(*ast.CaseClause)
+				cc.Body = fix(cc.Body)
+			}
+		}
+	}
+	body.List = fix(body.List)
+	if c.closures == nil {
+		c.closures = map[*types.Var]ast.Stmt{}
+	}
+	c.closures[v] = def
+	c.changed = true
+	c.n.lg.Inlined = append(c.n.lg.Inlined, fmt.Sprintf("%s: %s applied where its result is called, in %s (selector application)", c.n.w.Pos(call.Pos()), g.Name, c.rootName))
+	return &ast.CallExpr{Fun: &ast.FuncLit{Type: &ast.FuncType{Func: call.Pos(), Params: &ast.FieldList{}, Results: results}, Body: body}, Lparen: call.Lparen, Rparen: call.Rparen}
+}
+
+// isSelectorBody: the body consists of returns of function values (declared functions, or literals that capture
+// nothing), chosen by switch and if statements whose tags, cases and conditions call nothing.
+func isSelectorBody(g *Func) bool {
+	info := g.Pkg.TypesInfo
+	var okList func(list []ast.Stmt) bool
+	okStmt := func(st ast.Stmt) bool { return false }
+	okList = func(list []ast.Stmt) bool {
+		for _, st := range list {
+			if !okStmt(st) {
+				return false
+			}
+		}
+		return true
+	}
+	okStmt = func(st ast.Stmt) bool {
+		switch x := st.(type) {
+		case *ast.ReturnStmt:
+			if len(x.Results) != 1 {
+				return false
+			}
+			switch r := unparen(x.Results[0]).(type) {
+			case *ast.Ident:
+				_, isFn := info.Uses[r].(*types.Func)
+				return isFn
+			case *ast.SelectorExpr:
+				_, isFn := info.Uses[r.Sel].(*types.Func)
+				_, isPkg := info.Uses[identOf(r.X)].(*types.PkgName)
+				return isFn && isPkg && identOf(r.X) != nil
+			case *ast.FuncLit:
+				return closedFuncLit(info, r)
+			}
+			return false
+		case *ast.BlockStmt:
+			return okList(x.List)
+		case *ast.IfStmt:
+			if x.Init != nil || !callFree(x.Cond) || !okList(x.Body.List) {
+				return false
+			}
+			return x.Else == nil || okStmt(x.Else)
+		case *ast.SwitchStmt:
+			if x.Init != nil || (x.Tag != nil && !callFree(x.Tag)) {
+				return false
+			}
+			for _, cl := range x.Body.List {
+				cc := cl.(*ast.CaseClause)
+				for _, e := range cc.List {
+					if !callFree(e) {
+						return false
+					}
+				}
+				if !okList(cc.Body) {
+					return false
+				}
+			}
+			return true
+		}
+		return false
+	}
+	return okList(g.Body.List)
+}
+
+// closureCleanup removes the bindings of closures whose every call was spliced.
+func (c *inlCtx) closureCleanup() {
+	for v, def := range c.closures {
+		used := false
+		ast.Inspect(c.root, func(n ast.Node) bool {
+			x, ok := n.(*ast.Ident)
+			if !ok {
+				return true
+			}
+			if c.info.Uses[x] == types.Object(v) {
+				used = true
+			}
+			if o, ok := c.n.back[x].(*ast.Ident); ok && c.info.Uses[o] == types.Object(v) {
+				used = true
+			}
+			return !used
+		})
+		if used {
+			continue
+		}
+		removeStmt(c.root, def)
+		c.changed = true
+	}
+}
+
+// removeStmt deletes the statement from the list that holds it.
+func removeStmt(root ast.Node, st ast.Stmt) {
+	drop := func(list []ast.Stmt) []ast.Stmt {
+		for i, s := range list {
+			if s == st {
+				return append(list[:i:i], list[i+1:]...)
+			}
+		}
+		return list
+	}
+	ast.Inspect(root, func(n ast.Node) bool {
+		switch x := n.(type) {
+		case *ast.BlockStmt:
+			x.List = drop(x.List)
+		case *ast.CaseClause:
+			x.Body = drop(x.Body)
+		case *ast.CommClause:
+			x.Body = drop(x.Body)
+		}
+		return true
+	})
 }
